@@ -326,6 +326,10 @@ def table_to_source_list(table, src_type=ComponentSource):
             if param in table.colnames:
                 # copy the value to our object
                 val = row[param]
+                # astropy masks NaN (VOTable, FITS) and empty strings (ascii,
+                # FITS) on reading: keep the class default (nan / '')
+                if val is np.ma.masked:
+                    continue
                 # hack around float32's broken-ness
                 if isinstance(val, np.float32):
                     val = np.float64(val)
